@@ -78,7 +78,10 @@ def melody_from_j(j):
 
 def ton_from_j(j):
     from musiclang import Tonality
-    return Tonality(j['deg'], j['mode'], j['oct'])
+    t = Tonality(j['deg'], j['mode'], j['oct'])
+    if j.get('tags'):
+        t = t.add_tags(list(j['tags']))      # tags are no part of a tonality's identity (seed C20-5 printed them, and the
+    return t                                 # hash is the hash of the printed form)
 
 
 def chord_from_j(j):
@@ -293,10 +296,12 @@ def vary_ton(rng, j, field):
         k = rng.choice([1, -1, 2])
         v['deg'] = j['deg'] + 12 * k
         v['oct'] = j['oct'] - k
+    elif field == 'tags':
+        v['tags'] = other(rng, sorted(j.get('tags', [])), [[], ['pivot'], ['a', 'label']])
     return v
 
 
-TON_FIELDS = ['deg', 'mode', 'oct', 'respell']
+TON_FIELDS = ['deg', 'mode', 'oct', 'respell', 'tags']
 
 
 def rext(rng):
@@ -321,7 +326,7 @@ def rchord_j(rng, nparts=(0, 3), wide_ton=False):
             'parts': [[nm, rmelody_j(rng, n=((0, 0) if rng.random() < 0.06 else (1, 3)))] for nm in names]}
 
 
-CHORD_FIELDS = ['elem', 'ext-respell', 'ext-fig', 'ext-5', 'ton-deg', 'ton-mode', 'ton-oct', 'ton-respell', 'oct',
+CHORD_FIELDS = ['elem', 'ext-respell', 'ext-fig', 'ext-5', 'ton-deg', 'ton-mode', 'ton-oct', 'ton-respell', 'ton-tags', 'oct',
                 'part-order', 'part-rename', 'part-drop', 'part-add', 'part-note']
 
 
